@@ -55,7 +55,7 @@ def teardown(ctx):
 
 
 def cases(ctx):
-    n = 500 if ctx.tier == 'quick' else 30000
+    n = 500 if ctx.tier == 'quick' else 400000
     for i in range(n):
         yield {'kind': 'gen', 'i': i}
     for n_atoms in ((1000, 3000) if ctx.tier == 'quick' else (1000, 1500, 2000, 2500, 3000)):
